@@ -398,8 +398,19 @@ pub fn cases_for(plan: &Plan, seed: u64) -> (Vec<(String, History)>, usize) {
     for i in 0..plan.n_random {
         let hseed = base.fork(i as u64).next_u64();
         let mut prof = plan.profile.clone();
-        if plan.compare == Compare::TwoRun && i % 2 == 0 {
+        if plan.compare == Compare::TwoRun && i % 3 == 0 {
             prof.aligned = true;
+        }
+        if plan.compare == Compare::TwoRun && i % 3 == 1 {
+            // entangled: chains that start from other clients' versions, short, with snapshot and
+            // child-version arguments pointing into the other chains
+            prof.entangle_pct = 80;
+            prof.w_kind = [40, 15, 30, 10, 5];
+            prof.valid_add_pct = 80;
+            prof.max_ops = 50;
+        }
+        if plan.compare != Compare::TwoRun && i % 5 == 4 {
+            prof.entangle_pct = 60;
         }
         cases.push(("random".into(), generate(hseed, &prof)));
     }
